@@ -293,8 +293,15 @@ static void point_pc(const void* addr, int kind, uintptr_t pc) {
 }
 extern "C" void vs_point(const void* addr, int kind) { point_pc(addr, kind, (uintptr_t)__builtin_return_address(0)); }
 extern "C" void vs_wrote(const void*) { write_epoch++; }
-extern "C" void vs_yield(void) { if (!active || !me) { sched_yield(); return; } if (vs_tso_on) vs_tso_drain(); point_pc(nullptr, VSK_YIELD, 0); }
-extern "C" void vs_pause(void) { if (!active || !me) { __builtin_ia32_pause(); return; } if (vs_tso_on) vs_tso_drain(); point_pc(nullptr, VSK_PAUSE, 0); }
+// single-threaded phases run with the scheduler off (billions of cheap points); a spin that yields `limit` times
+// in a row without any value-changing write by the only running thread is still an exact fix-point
+static long inactive_limit = 0, inactive_cnt = 0; static uint64_t inactive_epoch = 0;
+extern "C" void vs_inactive_spin_limit(long n) { inactive_limit = n; inactive_cnt = 0; }
+static void inactive_yield() {
+    if (inactive_limit > 0) { if (inactive_epoch != write_epoch) { inactive_epoch = write_epoch; inactive_cnt = 0; } if (++inactive_cnt > inactive_limit) fixpoint(); }
+}
+extern "C" void vs_yield(void) { if (!active || !me) { inactive_yield(); sched_yield(); return; } if (vs_tso_on) vs_tso_drain(); point_pc(nullptr, VSK_YIELD, 0); }
+extern "C" void vs_pause(void) { if (!active || !me) { inactive_yield(); __builtin_ia32_pause(); return; } if (vs_tso_on) vs_tso_drain(); point_pc(nullptr, VSK_PAUSE, 0); }
 extern "C" void vs_work(int k) { for (int i = 0; i < k; i++) point_pc(nullptr, VSK_WORK, 0); }
 extern "C" uint64_t vs_now(void) { return ++lclock; }
 extern "C" void vs_first_yield_reset(void) { if (me) me->first_yield = 0; }
